@@ -22,8 +22,15 @@ import os, re, shutil, subprocess, sys, time
 
 REPO = "/repo"
 VERIF = "/verif"
-SCRATCH = "/tmp/genfn_scratch"
-GENFN = os.path.join(VERIF, "build", "genfn")
+# overridable, so that a private copy of the translator / of the proof scripts can be tested
+# without touching /verif (GENFN_SRC=/tmp/x/genfn GENFN_PROOFS=/tmp/x/coq/Proofs GENFN_BIN=/tmp/x/genfn.bin
+# GENFN_SCRATCH=/tmp/x/scratch python3 selftest.py ...)
+GENFN_SRC = os.environ.get("GENFN_SRC", os.path.join(VERIF, "genfn"))
+PROOFS = os.environ.get("GENFN_PROOFS", os.path.join(VERIF, "coq", "Proofs"))
+SCRATCH = os.environ.get("GENFN_SCRATCH", "/tmp/genfn_scratch")
+GENFN = os.environ.get("GENFN_BIN", os.path.join(VERIF, "build", "genfn"))
+
+# stage D (cases whose name starts with "D"): genfn -all, then GenFnProofs.v AND GenFnEvalProofs.v
 
 # (name, kind, file, old text, new text, theorem expected to fail)
 CASES = [
@@ -301,6 +308,122 @@ func (t *SymbolTable) Index(s string) uint64 {
     ("M5_LessOrEqual_date_strict", "mutation", "expressions.go",
      "out = Bool(left.(Date) <= right.(Date))", "out = Bool(left.(Date) < right.(Date))",
      "go_LessOrEqual_Eval_eq"),
+    ("D0_unmodified_baseline_all", "harmless", "expressions.go", "", "", None),
+    ("DR1_Evaluate_type_switch_on_op", "harmless", "expressions.go",
+     [('''		switch op.Type() {
+		case OpTypeValue:
+			id := op.(Value).ID
+			switch id.Type() {
+			case TermTypeVariable:
+''',
+       '''		switch o := op.(type) {
+		case Value:
+			id := o.ID
+			switch id.Type() {
+			case TermTypeVariable:
+'''),
+      ('''		case OpTypeUnary:
+			v, err := s.Pop()
+			if err != nil {
+				return nil, fmt.Errorf("datalog: expressions: failed to pop unary''',
+       '''		case UnaryOp:
+			v, err := s.Pop()
+			if err != nil {
+				return nil, fmt.Errorf("datalog: expressions: failed to pop unary'''),
+      ("res, err := op.(UnaryOp).Eval(v, symbols)", "res, err := o.Eval(v, symbols)"),
+      ('''		case OpTypeBinary:
+			right, err := s.Pop()
+			if err != nil {
+				return nil, fmt.Errorf("datalog: expressions: failed to pop binary''',
+       '''		case BinaryOp:
+			right, err := s.Pop()
+			if err != nil {
+				return nil, fmt.Errorf("datalog: expressions: failed to pop binary'''),
+      ("res, err := op.(BinaryOp).Eval(left, right, symbols)", "res, err := o.Eval(left, right, symbols)")],
+     "", None),
+    ("DR2_Evaluate_hoisted_assertion_renamed_temporaries_inverted_final_test", "harmless", "expressions.go",
+     '''			right, err := s.Pop()
+			if err != nil {
+				return nil, fmt.Errorf("datalog: expressions: failed to pop binary right value: %w", err)
+			}
+			left, err := s.Pop()
+			if err != nil {
+				return nil, fmt.Errorf("datalog: expressions: failed to pop binary left value: %w", err)
+			}
+
+			res, err := op.(BinaryOp).Eval(left, right, symbols)
+			if err != nil {
+				return nil, fmt.Errorf("datalog: expressions: binary eval failed: %w", err)
+			}
+			err = s.Push(res)
+			if err != nil {
+				return nil, fmt.Errorf("datalog: expressions: stack overflow")
+			}
+		default:
+			return nil, fmt.Errorf("datalog: expressions: unsupported Op: %v", op.Type())
+		}
+	}
+
+	// after processing all operations, there must be a single value left in the stack
+	if len(*s) != 1 {
+		return nil, fmt.Errorf("datalog: expressions: invalid resulting stack: %#v", *s)
+	}
+
+	return s.Pop()
+}
+''',
+     '''			bop := op.(BinaryOp)
+			rhs, errR := s.Pop()
+			if errR != nil {
+				return nil, fmt.Errorf("datalog: expressions: failed to pop binary right value: %w", errR)
+			}
+			lhs, errL := s.Pop()
+			if errL != nil {
+				return nil, fmt.Errorf("datalog: expressions: failed to pop binary left value: %w", errL)
+			}
+
+			out, evalErr := bop.Eval(lhs, rhs, symbols)
+			if evalErr != nil {
+				return nil, fmt.Errorf("datalog: expressions: binary eval failed: %w", evalErr)
+			}
+			if pushErr := s.Push(out); pushErr != nil {
+				return nil, fmt.Errorf("datalog: expressions: stack overflow")
+			}
+		default:
+			return nil, fmt.Errorf("datalog: expressions: unsupported Op: %v", op.Type())
+		}
+	}
+
+	// after processing all operations, there must be a single value left in the stack
+	n := len(*s)
+	if n == 1 {
+		return s.Pop()
+	}
+	return nil, fmt.Errorf("datalog: expressions: invalid resulting stack: %#v", *s)
+}
+''', None),
+    ("DM1_Evaluate_pops_left_before_right", "mutation", "expressions.go",
+     '''			right, err := s.Pop()
+			if err != nil {
+				return nil, fmt.Errorf("datalog: expressions: failed to pop binary right value: %w", err)
+			}
+			left, err := s.Pop()
+''',
+     '''			left, err := s.Pop()
+			if err != nil {
+				return nil, fmt.Errorf("datalog: expressions: failed to pop binary right value: %w", err)
+			}
+			right, err := s.Pop()
+''', "go_Expression_Evaluate_eq"),
+    ("DM2_Evaluate_accepts_several_values_left", "mutation", "expressions.go",
+     "	if len(*s) != 1 {\n\t\treturn nil, fmt.Errorf(\"datalog: expressions: invalid resulting stack: %#v\", *s)",
+     "	if len(*s) < 1 {\n\t\treturn nil, fmt.Errorf(\"datalog: expressions: invalid resulting stack: %#v\", *s)",
+     "go_Expression_Evaluate_eq"),
+    ("DM3_stack_Push_bound_off_by_one", "mutation", "expressions.go",
+     '''func (s *stack) Push(v Term) error {
+	if len(*s) >= maxStackSize {''',
+     '''func (s *stack) Push(v Term) error {
+	if len(*s) > maxStackSize {''', "go_stack_Push_eq"),
     ("U1_unsupported_construct_is_refused", "unsupported", "symbol.go",
      '''	*t = append(*t, s)
 
@@ -397,7 +520,7 @@ def theorem_at(path, line):
 def main():
     want = sys.argv[1:]
     env = dict(os.environ, GOFLAGS="-mod=mod", GOPROXY="off", GOSUMDB="off", GOTOOLCHAIN="local")
-    r = sh(["go", "build", "-o", GENFN, "."], cwd=os.path.join(VERIF, "genfn"), env=env)
+    r = sh(["go", "build", "-o", GENFN, "."], cwd=GENFN_SRC, env=env)
     if r.returncode != 0:
         print(r.stdout)
         sys.exit(2)
@@ -411,18 +534,25 @@ def main():
         for name, kind, fname, old, new, expect_fail in CASES:
             if want and name not in want and name != "R0_unmodified_baseline":
                 continue
+            stage_d = name.startswith("D")
             shutil.rmtree(SCRATCH, ignore_errors=True)
             os.makedirs(os.path.join(SCRATCH, "coq"))
             pristine_datalog(os.path.join(SCRATCH, "repo"))
             p = os.path.join(SCRATCH, "repo", "datalog", fname)
             src = open(p).read()
-            if old == "" and new == "":
-                pass
-            elif src.count(old) != 1:
-                print(f"{name}: the text to replace occurs {src.count(old)} times in {fname}")
+            # one edit (old, new), or a list of (old, new) pairs applied in order
+            pairs = old if isinstance(old, list) else ([] if old == "" and new == "" else [(old, new)])
+            bad = False
+            for a, b2 in pairs:
+                if src.count(a) != 1:
+                    print(f"{name}: the text to replace occurs {src.count(a)} times in {fname}: {a[:60]!r}")
+                    bad = True
+                    break
+                src = src.replace(a, b2)
+            if bad:
                 ok_all = False
                 continue
-            open(p, "w").write(src.replace(old, new))
+            open(p, "w").write(src)
             if kind != "unsupported":
                 # the edited package must still compile as Go
                 r = sh(["go", "build", "./datalog/"], cwd=os.path.join(SCRATCH, "repo"), env=env)
@@ -432,7 +562,7 @@ def main():
                     continue
             t0 = time.time()
             gen = os.path.join(SCRATCH, "coq", "GeneratedFn.v")
-            r = sh([GENFN, os.path.join(SCRATCH, "repo"), gen])
+            r = sh([GENFN] + (["-all"] if stage_d else []) + [os.path.join(SCRATCH, "repo"), gen])
             tgen = time.time() - t0
             if kind == "unsupported":
                 good = r.returncode != 0 and "unsupported construct" in r.stdout
@@ -443,7 +573,7 @@ def main():
                 results.append((name, kind, "genfn FAILED", r.stdout.strip(), False))
                 ok_all = False
                 continue
-            proofs = open(os.path.join(VERIF, "coq", "Proofs", "GenFnProofs.v")).read()
+            proofs = open(os.path.join(PROOFS, "GenFnProofs.v")).read()
             proofs = proofs.replace("From BV Require Import GeneratedFn.", "From BVS Require Import GeneratedFn.")
             pp = os.path.join(SCRATCH, "coq", "GenFnProofs.v")
             open(pp, "w").write(proofs)
@@ -459,13 +589,20 @@ def main():
                 continue
             t0 = time.time()
             r2 = sh(["timeout", "1800", "coqc"] + args + [pp])
+            if stage_d and r2.returncode == 0:
+                # stage D: the stack machine, proved in GenFnEvalProofs.v against the same regenerated definitions
+                proofs = open(os.path.join(PROOFS, "GenFnEvalProofs.v")).read()
+                proofs = proofs.replace("From BV Require Import GeneratedFn GenFnProofs.", "From BVS Require Import GeneratedFn GenFnProofs.")
+                pp = os.path.join(SCRATCH, "coq", "GenFnEvalProofs.v")
+                open(pp, "w").write(proofs)
+                r2 = sh(["timeout", "1800", "coqc"] + args + [pp])
             tcoq = time.time() - t0
             passed = r2.returncode == 0 and "Closed under the global context" in r2.stdout
             if "inconsistent assumptions" in r1.stdout + r2.stdout or "Cannot find a physical path" in r2.stdout:
                 results.append((name, kind, "ENVIRONMENT: the snapshot of /verif/coq is not consistent", r2.stdout.strip()[-400:], False))
                 ok_all = False
                 break
-            if name == "R0_unmodified_baseline" and not passed:
+            if name in ("R0_unmodified_baseline", "D0_unmodified_baseline_all") and not passed:
                 results.append((name, kind, "ENVIRONMENT or script: the unmodified source does not pass; no verdict below would mean anything",
                                 r2.stdout.strip()[-600:], False))
                 ok_all = False
